@@ -94,7 +94,7 @@ def _pool(workers):
 def run_batch(prop, tier, verif_seed, runs, workers, per_run_timeout, wall_cap, sample_idx):
     """returns (results sorted by index, harness_errors list, stopped_early bool)"""
     t0 = time.time()
-    nchunk = max(1, min(runs, workers * 12))
+    nchunk = max(1, min(runs, max(workers * 12, -(-runs // 64))))  # chunks of <= 64 runs: short multi-run histories, short tails
     # interleave indices so every chunk sees every stratum and chunks finish at similar times
     chunks = [list(range(c, runs, nchunk)) for c in range(nchunk)]
     results, herr, early = [], [], False
